@@ -323,6 +323,28 @@ def run_history(case, res):
                       'DASSH_Input.materials changed by construction no. %d:'
                       ' %s' % (n + 1, ', '.join(badm[:4])), key)
             results.append(fields(r))
+            if n == 0 and rng.random() < 0.4:
+                # a construction with keyword overrides (a caller's own
+                # step size / energy-balance switch) in between: they belong
+                # to that model, not to the parsed input
+                try:
+                    with drive.quiet():
+                        dassh.Reactor(inp, axial_mesh_size=float(
+                            r.req_dz) * 0.5, calc_energy_balance=True)
+                except SystemExit:
+                    pass
+                s_kw = snapshot(inp.data)
+                bad_kw = diff(s0, s_kw)
+                res.check('H1_input_unchanged', not bad_kw,
+                          'DASSH_Input.data changed by a construction with '
+                          'keyword overrides: %s' % ', '.join(bad_kw[:5]),
+                          dict(key, paths=sorted(set(re.sub(
+                              r"\['[^']*'\]", '[.]', p_, count=2)
+                              for p_ in bad_kw))[:4], how='keywords'),
+                          {'paths': bad_kw})
+                res.tag('construction_with_keyword_overrides')
+                if bad_kw:
+                    s0 = s_kw
             if bad:
                 # keep going from the mutated state: later constructions
                 # see what a real second time point would see
